@@ -73,12 +73,18 @@ def F4():
 
 def F5():
     """C10: _strip_enclosing strips non-pairs"""
-    from bibtexparser.middlewares.enclosing import RemoveEnclosingMiddleware as R
+    from bibtexparser.middlewares.enclosing import RemoveEnclosingMiddleware as R, REMOVED_ENCLOSING_KEY
+    from bibtexparser.model import Entry, Field
+    from bibtexparser.library import Library
+
+    def strip(v):        # through the public interface (a private helper may be renamed)
+        e = R().transform(Library([Entry("article", "k", [Field("title", v)])])).blocks[0]
+        return e.fields[0].value, e.parser_metadata[REMOVED_ENCLOSING_KEY]["title"]
     bad = []
     for v, exp in [('"', ('"', "no-enclosing")), ("{a} # {b}", ("{a} # {b}", "no-enclosing")),
                    ('"a" # "b"', ('"a" # "b"', "no-enclosing")), ("{a}", ("a", "{")), ('"a"', ("a", '"')),
                    ("{", ("{", "no-enclosing")), ("{a{b}c}", ("a{b}c", "{")), ('"a{"}b"', ('a{"}b', '"'))]:
-        got = R._strip_enclosing(v)
+        got = strip(v)
         if tuple(got) != exp:
             bad.append((v, got))
     return not bad, repr(bad)
@@ -351,7 +357,7 @@ def F17():
     lib2 = m.transform(lib1)
     a = lib1.blocks[0].parser_metadata["sorted_fields_custom"]
     b = lib2.blocks[0].parser_metadata["sorted_fields_custom"]
-    shared = (a is b or a is m._order) and isinstance(a, list)
+    shared = (a is b or any(a is x for x in vars(m).values())) and isinstance(a, list)
     return not shared, "output metadata list is the input's / the middleware's own list: %r" % shared
 
 
